@@ -65,7 +65,7 @@ fn hdr_flat_body<const FULL: bool>(covers: fn(&RefHeader, usize, usize, &[u8; WI
         RefHeader::BadId => {
             // a zero first byte cannot start any element id: never accepted as a specification element
             match &r {
-                Ok((_, rty, _, _)) => assert!(mask & MASK_ID != 0 && rty.is_none(), "C13: zero id byte accepted in strict mode"),
+                Ok((_, rty, _, _)) => assert!(mask & MASK_ID != 0 && rty.is_none(), "C13/C03/C14: a zero first byte cannot begin any element id: never accepted as a specification element (junk is not swallowed as id padding)"),
                 Err(_) => {}
             }
         }
